@@ -99,7 +99,8 @@ void World::opEnc(const Item& op)
         {
             b.ptype = 0x20;  // generic content must not claim a typed layout
         }
-        b.version = ver;
+        // (C07 / C08 / C10 say nothing about the version: there a packet may bring its own; C01 / C09 quantify over one version per batch)
+        b.version = (is("C07") || is("C08") || is("C10")) && m.has("pver") ? static_cast<uint8_t>(std::max<int64_t>(1, m.get("pver") & 0xFF)) : ver;
         b.ts = static_cast<uint64_t>(m.get("ts", 0));
         b.id32 = static_cast<uint32_t>(m.get("ifid", 0));
         b.flags = static_cast<uint8_t>(m.get("flags", 0)) & static_cast<uint8_t>(~wire::FLAG_ERR_IN_PAYLOAD);
@@ -849,9 +850,11 @@ void World::opTecmp(const Item& op)
             body = contentBytes(id, 0, wire::TECMP_CM_FIXED + nn);
             wire::wr16(body.data() + 4, static_cast<uint16_t>(24 + nn));
             break;
-        case 4:  // bus status: 12 generic bytes + n entries
+        case 4:  // bus status: 12 generic bytes + n entries (the device id inside is the header's own in half of the frames, as in real traffic)
             nn = std::min<size_t>(nn, 200);
             body = contentBytes(id, 0, wire::TECMP_BUS_GENERIC + nn * wire::TECMP_BUS_ENTRY);
+            if ((mix64(id * 31ULL + 9) & 1) && body.size() >= 8)
+                wire::wr16(body.data() + 6, static_cast<uint16_t>(op.get("dev", 0)));
             if (op.has("eidv") && nn)
             {
                 // extreme but legal values in one entry (or all): interface id 0 / all ones / the header's own id, counters 0 / all ones
